@@ -14,6 +14,30 @@ from ..sym.core import SInt, cur, fresh_name
 from ..sym.arr import SymArr, I, dim_term
 
 
+def contract_bucket_invariant(KD, S, L, m, HASH, size, brow):
+    """the bucket invariant of a HashTable over m buckets with geometry (S, L) and flat key array KD: every cell a lies in bucket brow(a), which is
+    the hash of the key stored in it.  Established by HashTable.__init__ (contract.bucket-invariant), assumed by _get_indices."""
+    return lambda a: z3.Implies(z3.And(0 <= a, a < size), z3.And(0 <= brow(a), brow(a) < m, S(brow(a)) <= a, a < S(brow(a)) + L(brow(a)), brow(a) == HASH(KD(a))))
+
+
+def contract_table_cells(K, V, N, KD, VD, perm, inv):
+    """HashTable.__init__: the N cells hold the input keys and their values in a permuted order: cell a holds key K(perm(a)) and value V(perm(a)),
+    perm a bijection of the input positions (ghost inverse inv)."""
+    A = lambda a: z3.Implies(z3.And(0 <= a, a < N), z3.And(KD(a) == K(perm(a)), VD(a) == V(perm(a)), 0 <= perm(a), perm(a) < N, inv(perm(a)) == a))
+    B = lambda j: z3.Implies(z3.And(0 <= j, j < N), z3.And(0 <= inv(j), inv(j) < N, perm(inv(j)) == j))
+    return [("table.cells", A, 1), ("table.every-input-position-has-a-cell", B, 1)]
+
+
+def contract_table_geometry(S, L, m, N):
+    """HashTable.__init__: the m buckets lie inside the key array of N cells"""
+    return lambda h: z3.Implies(z3.And(0 <= h, h < m), z3.And(0 <= S(h), L(h) >= 0, S(h) + L(h) <= N))
+
+
+def contract_get_indices(Q, q, H, O, KD, S, L, HASH):
+    """_get_indices(keys) when it returns: bucket H(i) = hash of the i-th queried key and offset O(i) locate that key's cell"""
+    return lambda i: z3.Implies(z3.And(0 <= i, i < q), z3.And(H(i) == HASH(Q(i)), 0 <= O(i), O(i) < L(H(i)), KD(S(H(i)) + O(i)) == Q(i)))
+
+
 def bare_table(cls=None):
     from npstructures.hashtable import HashTable
     cls = cls or HashTable
@@ -351,8 +375,7 @@ class GetIndices(Family):
         ctx.assume_forall("keys distinct", lambda a, b: z3.Implies(z3.And(0 <= a, a < b, b < size), KD(a) != KD(b)), arity=2)
         HASH = z3.Function(fresh_name("hash"), z3.IntSort(), z3.IntSort())       # contract of _get_hash (proved in its own family):
         ctx.assume_forall("hash range", lambda k_: z3.And(0 <= HASH(k_), HASH(k_) < m))   # a function of the key with values in [0, m)
-        ctx.assume_forall("cell a lies in bucket row(a) = hash of its key", lambda a: z3.Implies(z3.And(0 <= a, a < size), z3.And(
-            0 <= brow(a), brow(a) < m, ks.S(brow(a)) <= a, a < ks.S(brow(a)) + ks.L(brow(a)), brow(a) == HASH(KD(a)))))
+        ctx.assume_forall("cell a lies in bucket row(a) = hash of its key", contract_bucket_invariant(KD, ks.S, ks.L, m, HASH, size, brow))
         q = z3.Int("q")
         ctx.assume(q >= 0)
         keys = SymArr.symbolic("query", q, "int", assume_len=False)
@@ -446,6 +469,7 @@ class GetIndices(Family):
         ctx.prove("post.one hit per queried key, in query order", z3.And(cnt == q, R(i) == i), pool=[i, q - 1, z3.IntVal(0), cnt - 1])
         ctx.prove("post.offsets[i] is the position of keys[i] in its bucket", z3.And(0 <= O(i), O(i) < ks.L(H(i)), KD(ks.S(H(i)) + O(i)) == Q(i)),
                   pool=[i, q - 1, z3.IntVal(0), cnt - 1])
+        ctx.prove("contract.get_indices", contract_get_indices(Q, q, H, O, KD, ks.S, ks.L, HASH)(i), pool=[i, q - 1, z3.IntVal(0), cnt - 1])
 
 
 def _bucket_lemmas(ctx, st):
@@ -576,8 +600,21 @@ class TableInit(Family):
         ctx.prove("post.every input key is in exactly one cell", z3.And(0 <= inv(a), inv(a) < N, perm(inv(a)) == a, KD.get(inv(a)) == Kf(a)), pool=[a, inv(a)])
         ctx.prove_then_assume("post.lemma: the sorted hash at cell a is the hash of the key stored there", b == HASH(KD.get(a)), pool=[a, perm(a)])
         pool = [a, a + 1, b, b + 1, N, m, LT(b, N), LT(b, N) - 1, LT(b + 1, N), LT(b + 1, N) - 1]
-        ctx.prove("post.bucket invariant: cell a lies in bucket hash(key at a):  starts[b] <= a < starts[b] + lengths[b]",
-                  z3.And(0 <= b, b < m, sh.starts.get(b) <= a, a < sh.starts.get(b) + sh.lengths.get(b)), pool=pool)
+        ctx.prove_then_assume("post.bucket invariant: cell a lies in bucket hash(key at a):  starts[b] <= a < starts[b] + lengths[b]",
+                  z3.And(0 <= b, b < m, sh.starts.get(b) <= a, a < sh.starts.get(b) + sh.lengths.get(b)), pool=pool,
+                  without=["lemmaD", "lemmaE", "lemmaA'", "lemmaZ", "unique.", "scatter", "LT.base"])
+        # the contracts as the lookup lemma and _get_indices use them (same formulas)
+        ctx.prove("contract.bucket-invariant", contract_bucket_invariant(KD.get, sh.starts.get, sh.lengths.get, m, HASH, N, hs)(a), pool=[a],
+                  without=["lemma", "LT.", "unique.", "argsort", "PS.step", "scatter"])
+        cells = contract_table_cells(Kf, Vf, N, KD.get, VD.get, perm, inv)
+        ctx.prove("contract." + cells[0][0], cells[0][1](a), pool=[a, perm(a)])
+        ctx.prove("contract." + cells[1][0], cells[1][1](a), pool=[a, inv(a)])
+        hb = z3.Int("hb")
+        ctx.skolem(z3.And(0 <= hb, hb < m))
+        ctx.prove_then_assume("lemma: bucket lengths are counts (non-negative)", g["Ls"](hb) >= 0, pool=[hb, N])
+        # prefix sums of non-negative lengths are monotone (lemma PS-monotone, vf.proofs.lemmas)
+        ctx.assume_forall("PS-monotone (lemma library; lengths are non-negative by the lemma above)", lambda x_, y_: z3.Implies(z3.And(0 <= x_, x_ <= y_, y_ <= m), ps(x_) <= ps(y_)), arity=2)
+        ctx.prove("contract.table-geometry", contract_table_geometry(sh.starts.get, sh.lengths.get, m, N)(hb), pool=[hb, hb + 1, m, z3.IntVal(0), N, LT(m, N), LT(m, N) - 1, LT(m, N) + 1])
         ctx.prove("post.inputs not modified", z3.BoolVal(keys.buf.writes == 0 and vals.buf.writes == 0))
 
     def concrete(self, case):
@@ -600,3 +637,44 @@ class TableInit(Family):
             for ks in itertools.permutations([0, 3, 4, 7, 9, -2], n):
                 for mod in (1, 2, 3, 5):
                     yield {"keys": list(ks), "mod": mod}
+
+
+@register
+class TableLookupLemma(Family):
+    """C11's core as a lemma over the proved contracts (hypotheses: the shared contract formulas of HashTable.__init__ and _get_indices, and the
+    element gather values[h, o] = flat[starts[h] + o]): for a table built from distinct keys K[0..N) with values V, whenever _get_indices returns for a
+    query, the value fetched for the i-th queried key is V[j] for THE input position j with K[j] == query[i] - the dictionary {K[j]: V[j]}."""
+    name = "lemma: HashTable lookup returns the value stored with the key"
+    qualname = "npstructures.hashtable:HashTable.__getitem__"
+    serves = ["C11", "C12"]
+    assumed = ["callee contracts HashTable.__init__ (contract.bucket-invariant, contract.table.*) and _get_indices (contract.get_indices), proved in their families",
+               "RaggedArray element gather values[hashes, offsets] = flat values[starts[hash] + offset] (proved: IndexableArray._get_element)"]
+
+    def run(self, ctx, kind):
+        from ..sym.arr import ElemSort
+        II = (z3.IntSort(), z3.IntSort())
+        fn = lambda nm, *srt: z3.Function(nm, *srt)
+        K, V = fn("K", *II), fn("V", z3.IntSort(), ElemSort)
+        KD, VD = fn("KD", *II), fn("VD", z3.IntSort(), ElemSort)
+        S, L, perm, inv, HASH, brow = fn("S", *II), fn("L", *II), fn("perm", *II), fn("inv", *II), fn("HASH", *II), fn("brow", *II)
+        Q, H, O = fn("Q", *II), fn("H", *II), fn("O", *II)
+        N, m, q = z3.Int("N"), z3.Int("m"), z3.Int("q")
+        ctx.assume(z3.And(N >= 1, m >= 1, q >= 0))
+        ctx.assume_forall("input keys are distinct", lambda a_, b_: z3.Implies(z3.And(0 <= a_, a_ < b_, b_ < N), K(a_) != K(b_)), arity=2)
+        ctx.assume_forall("bucket invariant", contract_bucket_invariant(KD, S, L, m, HASH, N, brow))
+        for nm, f, ar in contract_table_cells(K, V, N, KD, VD, perm, inv):
+            ctx.assume_forall(nm, f, arity=ar)
+        ctx.assume_forall("get_indices", contract_get_indices(Q, q, H, O, KD, S, L, HASH))
+        i, j = z3.Int("i"), z3.Int("j")
+        ctx.skolem(z3.And(0 <= i, i < q, 0 <= j, j < N, K(j) == Q(i)))
+        c = S(H(i)) + O(i)
+        # the cell lies inside the key array: the buckets partition [0, N) (S(h) + L(h) <= N for every bucket is part of the table's geometry)
+        ctx.assume_forall("buckets lie inside the key array", contract_table_geometry(S, L, m, N))
+        ctx.assume_forall("hash range (contract of _get_hash)", lambda k_: z3.And(0 <= HASH(k_), HASH(k_) < m))
+        ctx.prove_then_assume("lemma: the located cell exists and holds the queried key", z3.And(0 <= c, c < N, KD(c) == Q(i)), pool=[i, H(i), Q(i)], live=[j])
+        ctx.prove_then_assume("lemma: it is the cell of input position j (keys are distinct)", perm(c) == j, pool=[c, perm(c), j, i])
+        ctx.prove("post.values[hashes[i], offsets[i]] == V[j]: the value stored with the key", VD(c) == V(j), pool=[c, i, j])
+        # cells of distinct keys differ, so the table has one cell per key: KD injective
+        a_, b_ = z3.Int("ca"), z3.Int("cb")
+        ctx.skolem(z3.And(0 <= a_, a_ < b_, b_ < N))
+        ctx.prove("post.the cells hold distinct keys", KD(a_) != KD(b_), pool=[a_, b_, perm(a_), perm(b_)], live=[i, j])
